@@ -72,6 +72,12 @@ def gen_event(R, items):
         ev = {"f%d" % j: R.choice(["v%d" % R.randrange(100), "", None, b"\x00\xffbin", "a b|c"]) for j in range(n)}
         if R.random() < 0.03:
             ev["big"] = "x" * 70000          # a message larger than 64 KiB
+        bad = R.random()
+        if bad < 0.05:
+            ev["bad"] = R.choice([5, 0, True, 2.5])                    # a field value of an unsupported type
+            return {"kind": "upd", "item": it, "snap": R.choice([True, False]), "ev": ev, "illtyped": True}
+        if bad < 0.07:
+            return {"kind": "upd", "item": it, "snap": R.choice([1, 0, "1", None]), "ev": ev or {"f": "v"}, "illtyped": True}
         return {"kind": "upd", "item": it, "snap": R.choice([True, False]), "ev": ev if R.random() < 0.9 else None}
     if k < 0.68:
         return {"kind": "fal", "item": it, "msg": R.choice(["feed down", "boom|x y", "é€"])}
@@ -353,6 +359,11 @@ def driver_lines(run):
         elif kind == "put":
             if tid in lsn_pending and lsn_pending[tid].get("kind") == "fal":
                 o = "fput " + C.hx(lsn_pending[tid]["msg"])
+            elif tid in lsn_pending and lsn_pending[tid].get("stage") == "read" and \
+                    any(e[0] == "enqueue" and strip_ts(e[2]).startswith("FAL|E|") for e in ch["events"]):
+                msg = next(strip_ts(e[2]) for e in ch["events"] if e[0] == "enqueue")
+                o = "xput " + C.hx(ari.dec_text(msg.split("|")[2]) or "")
+                lsn_pending[tid]["stage"] = "put"
             elif tid in lsn_pending and lsn_pending[tid].get("stage") == "read":
                 o = "lput " + C.hx(lsn_pending[tid]["item"])
                 lsn_pending[tid]["stage"] = "put"
@@ -599,8 +610,8 @@ def oracle_c03(run, A, V):
         if c["m"] == "sub":
             sub_windows.setdefault(c["item"], []).append(c)
     for l in A.lsn:
-        if l["ev"]["kind"] == "fal":
-            continue                      # a failure notification is not an item event
+        if l["ev"]["kind"] == "fal" or l["ev"].get("illtyped"):
+            continue                      # a failure notification / an ill-typed update is not a forwarded item event
         item, t = l["ev"]["item"], l["t"]
         got = None
         if l["line"] is not None:
@@ -713,7 +724,7 @@ def oracle_c19(run, A, V):
             if mgr is not None:
                 V("item-retained-after-unsubscribe", "item %s still has bookkeeping after its last request (USB %s) was processed: queued=%s code=%s" % (item, last, mgr._queued, mgr._code))
             for l in A.lsn:
-                if l["probe"] and l["ev"]["kind"] != "fal" and l["ev"]["item"] == item and l["line"] is not None:
+                if l["probe"] and l["ev"]["kind"] != "fal" and not l["ev"].get("illtyped") and l["ev"]["item"] == item and l["line"] is not None:
                     V("probe-event-not-dropped", "event for unsubscribed item %s forwarded after quiescence" % item)
         else:
             tk = A.task.get(last)
@@ -774,4 +785,22 @@ def oracle_c18(run, A, V):
                 break
 
 
-ORACLES = {"C18": oracle_c18, "C14": oracle_c14, "C01": oracle_c01, "C02": oracle_c02, "C03": oracle_c03, "C16": oracle_c16, "C17": oracle_c17, "C19": oracle_c19}
+def oracle_c07(run, A, V):
+    """an update whose payload has a value of an unsupported type: no UD3 line at all; if the item is live the failure is
+    reported once (default handling of a Data server: one FAL notification)."""
+    for l in A.lsn:
+        if not l["ev"].get("illtyped"):
+            continue
+        line = l["line"]
+        if line is not None and line.startswith("UD3|"):
+            V("illtyped-update-produces-line", "an update with an ill-typed payload %r yielded the line %r" % (l["ev"], line[:80]))
+        fals = [m for t, tid, m in A.enq if tid == l["tid"] and l["t"] <= t and strip_ts(m).startswith("FAL|E|")
+                and "unsupported type" in ari.dec_text(strip_ts(m).split("|")[2]) or False]
+    for l in A.lsn:
+        if l["ev"]["kind"] == "fal":
+            continue
+        if l["line"] is not None and not l["ev"].get("illtyped") and l["line"].startswith("FAL|"):
+            V("welltyped-update-fails", "a well-typed listener call produced a failure notification: %r" % l["line"][:80])
+
+
+ORACLES = {"C07": oracle_c07, "C18": oracle_c18, "C14": oracle_c14, "C01": oracle_c01, "C02": oracle_c02, "C03": oracle_c03, "C16": oracle_c16, "C17": oracle_c17, "C19": oracle_c19}
